@@ -29,6 +29,10 @@ CLAIMED = {
    text="Machine-checked proof (Lean 4, PARTIAL): col_invariant proves for EVERY byte string and every state reachable by tkzNext from newTkz in the byte-level tokenizer model (tied to the real tokenizer incl. columns on every run) that the column the parser sees is current.begin minus the end of the last EOL token: exactly the physical column unless a newline hides inside a comment or literal (the forced hypothesis: known findings D10, D13). The full statement C06_full (emitted Go invariant under every re-layout) is stated, NOT proved; it is tied by the layout stream: each abstract program is rendered under many random layouts (independent indentation per block, blank lines, trailing blanks, line/block comments, one-line vs multi-line if, let right-hand side / arm body on the same or next line, pipeline broken before any |>) through the real compiler and the Go must be byte-identical; plus the dedent test. Known finding D15 (dedented operator line).",
    design="§5 C06", technique="Lean 4 invariant proof on the tokenizer model + layout metamorphic runs through the real compiler (parser-level theorems not built)",
    note="Trusted: Lean kernel; tokenizer model correspondence; the layout renderer of the generator. The parser's offside logic is not modelled."),
+ "C07": dict(
+   text="Machine-checked proof (Lean 4, PARTIAL): over the finite-map model of the long-lived state (scope dictionaries of the single ParseState, global type-info dictionaries keyed by encodedKey) lookup_frame, register_swap, register_perm, drop_unreferenced and split_files prove for all states and definition sequences that registering unrelated / reordered / file-split definitions does not change what any other name resolves to; typeinfo_frame_partial proves the same for the global dictionaries under injectivity of encodedKey, a hypothesis forced by the witness encodedKey_collision (known finding D14). fact_fcGlobals proves by decide that the REGENERATED list of package-level variables of fc is exactly the modelled state. The translation of a definition itself is not modelled: that it reads the state only through these lookups is tied by metamorphic runs of the real compiler (swap, drop, insert, split into files; per-declaration Go compared up to _vN numbering) and a real-binary run for gen_X.go naming / .foi handling.",
+   design="§5 C07", technique="Lean 4 frame/commutation theorems on the state model + regenerated globals inventory + metamorphic runs of the real compiler",
+   note="Trusted: Lean kernel; dict model; go/parser declaration cutting and _vN renumbering; the per-definition translation is abstract."),
  "C08": dict(
    text="Machine-checked proof (Lean 4): climb_eq_group proves for EVERY operator chain (any length, operators, operands, any precedence table) that the recursion scheme of parseExprWithPrec/parseBinAfter (minPrec, Precedence+1 for the right operand) returns the reference grouping (insertion into the right spine = grouping by rank, left-associative; validated by group_flatten, group_canon); table_is_published proves by decide that the REGENERATED binOpMap equals the published table, fact_precedenceUses pins the comparison and the +1. Partial at token level: the token parser with psSkipEOL and the term parser (application, not, parentheses) is an executable model tied by execution (every oracle answer re-checked against group) and by the c08.chain correspondence with the real parser+emitter (all chains of <=3/4 of the 12 operators x 3 operand shapes exhaustively, random chains with pipes/not/parens/line breaks), not by a Lean refinement proof.",
    design="§5 C08", technique="Lean 4 theorem (precedence climbing = reference grouping, induction on fuel) + decide over regenerated table + exhaustive/ random correspondence through the real parser and emitter",
